@@ -30,6 +30,8 @@ CONSTANTS Prog,      \* <<ops of thread 0, ops of thread 1>>, op = [op, n, m, d]
 
 Names == {"a", "b"}
 None  == 0            \* no blob (blob ids start at 1)
+DirV  == -1           \* the name is a directory (directly below the root it has no children in this model)
+IsFile(v) == v > 0
 VARIABLES store,   \* name -> blob id | None
           bytes,   \* blob id -> sequence of bytes
           cnt,     \* name -> number of times the name was unlinked (removed, renamed away, replaced by a rename)
@@ -66,7 +68,8 @@ Finish(t, r) ==   \* the operation returns r; the thread stands at the begin poi
   /\ th' = [th EXCEPT ![t] = [i |-> th[t].i + 1, pc |-> "begin", u |-> 0, blob |-> None, src |-> None, found |-> None]]
 Goto(t, pc, f) == th' = [th EXCEPT ![t] = [f EXCEPT !.pc = pc]]
 Label(pc) == CASE pc = "begin" -> "begin"
-               [] pc \in {"lookup", "create", "saveTrunc", "saveWrite", "delete", "lookupNew", "lookupDot", "move"} -> "txn"
+               [] pc \in {"lookup", "create", "saveTrunc", "saveWrite", "delete", "lookupNew", "lookupDot", "move",
+                          "lookupParent", "mkdirSet", "moveDirSet"} -> "txn"
                [] OTHER -> "txn-end"
 
 \* the write of an operation's data through its handle: in place, on the handle's blob
@@ -89,7 +92,9 @@ Step(t) ==
          /\ Goto(t, "afterLookup", [s EXCEPT !.found = store[o.n]])
          /\ UNCHANGED <<store, bytes, cnt, res, nblob>>
      \* ---- after the look-up ----------------------------------------------------------------------------------
-     [] s.pc = "afterLookup" /\ o.op \in {"append", "createappend", "writefile"} ->
+     [] s.pc = "afterLookup" /\ o.op \in {"append", "createappend", "writefile"} /\ s.found = DirV ->
+         Finish(t, "EISDIR") /\ UNCHANGED <<store, bytes, cnt, nblob>>      \* a directory is not opened for writing
+     [] s.pc = "afterLookup" /\ o.op \in {"append", "createappend", "writefile"} /\ s.found # DirV ->
          IF s.found # None THEN
             \* the handle is on the file found; O_TRUNC empties it in place (a transaction of its own unless already empty)
             IF o.op = "writefile" /\ Len(bytes[s.found]) > 0
@@ -121,6 +126,7 @@ Step(t) ==
               /\ UNCHANGED <<store, cnt, res, nblob>>
      \* ---- write-back transactions of a handle: only if the name still refers to the handle's file ------------------
      [] s.pc \in {"saveTrunc", "saveWrite"} ->
+         /\ Assert(store[o.n] # DirV \/ cnt[o.n] # s.u, "a write-back onto a directory that took the name without an unlink is outside this model")
          /\ store' = IF store[o.n] # None /\ cnt[o.n] = s.u THEN [store EXCEPT ![o.n] = s.blob] ELSE store
          /\ Goto(t, IF s.pc = "saveTrunc" THEN "afterTrunc" ELSE "afterWrite", s)
          /\ UNCHANGED <<bytes, cnt, res, nblob>>
@@ -132,8 +138,24 @@ Step(t) ==
      \* ---- ReadFile: the look-up, then the bytes of the file found as they are at that moment (writes of other handles land
      \*      in the shared blob before their write-back transaction, so they are visible here) ---------------------------------
      [] s.pc = "afterLookup" /\ o.op = "readfile" ->
-         /\ IF s.found = None THEN Finish(t, "ENOENT") ELSE Finish(t, bytes[s.found])
+         \* (ReadFile of a directory answers no bytes and no error: the recorded defect of directory handles, C02)
+         /\ IF s.found = None THEN Finish(t, "ENOENT") ELSE IF s.found = DirV THEN Finish(t, << >>) ELSE Finish(t, bytes[s.found])
          /\ UNCHANGED <<store, bytes, cnt, nblob>>
+     \* ---- Stat: one look-up ------------------------------------------------------------------------------------
+     [] s.pc = "afterLookup" /\ o.op = "stat" ->
+         /\ Finish(t, IF s.found = None THEN "ENOENT" ELSE "ok")
+         /\ UNCHANGED <<store, bytes, cnt, nblob>>
+     \* ---- Mkdir: look-up of the name, look-up of the parent, then an unconditional Set (check-then-act) --------------
+     [] s.pc = "afterLookup" /\ o.op = "mkdir" ->
+         IF s.found # None THEN Finish(t, "EEXIST") /\ UNCHANGED <<store, bytes, cnt, nblob>>
+         ELSE Goto(t, "lookupParent", s) /\ UNCHANGED <<store, bytes, cnt, res, nblob>>
+     [] s.pc = "lookupParent" -> Goto(t, "afterLookupParent", s) /\ UNCHANGED <<store, bytes, cnt, res, nblob>>
+     [] s.pc = "afterLookupParent" -> Goto(t, "mkdirSet", s) /\ UNCHANGED <<store, bytes, cnt, res, nblob>>
+     [] s.pc = "mkdirSet" ->
+         /\ store' = [store EXCEPT ![o.n] = DirV]
+         /\ Goto(t, "afterMkdirSet", s)
+         /\ UNCHANGED <<bytes, cnt, res, nblob>>
+     [] s.pc = "afterMkdirSet" -> Finish(t, "ok") /\ UNCHANGED <<store, bytes, cnt, nblob>>
      \* ---- Remove ----------------------------------------------------------------------------------------------
      [] s.pc = "afterLookup" /\ o.op = "remove" ->
          IF s.found = None THEN Finish(t, "ENOENT") /\ UNCHANGED <<store, bytes, cnt, nblob>>
@@ -153,10 +175,18 @@ Step(t) ==
          /\ Goto(t, "afterLookupNew", [s EXCEPT !.found = store[o.m]])
          /\ UNCHANGED <<store, bytes, cnt, res, nblob>>
      [] s.pc = "afterLookupNew" ->
-         /\ Goto(t, IF s.found = None THEN "lookupDot" ELSE "move", s)     \* a free name: its parent directory is looked up
-         /\ UNCHANGED <<store, bytes, cnt, res, nblob>>
+         \* a directory is never replaced; a directory replaces nothing; a free name: its parent directory is looked up
+         IF s.found = DirV THEN Finish(t, "EEXIST") /\ UNCHANGED <<store, bytes, cnt, nblob>>
+         ELSE IF s.src = DirV /\ s.found # None THEN Finish(t, "ENOTDIR") /\ UNCHANGED <<store, bytes, cnt, nblob>>
+         ELSE Goto(t, IF s.found = None THEN "lookupDot" ELSE "move", s) /\ UNCHANGED <<store, bytes, cnt, res, nblob>>
      [] s.pc = "lookupDot" -> Goto(t, "afterLookupDot", s) /\ UNCHANGED <<store, bytes, cnt, res, nblob>>
-     [] s.pc = "afterLookupDot" -> Goto(t, "move", s) /\ UNCHANGED <<store, bytes, cnt, res, nblob>>
+     [] s.pc = "afterLookupDot" -> Goto(t, IF s.src = DirV THEN "moveDirSet" ELSE "move", s) /\ UNCHANGED <<store, bytes, cnt, res, nblob>>
+     \* a directory moves in two transactions: the new name is set (nothing is counted as unlinked), then the old one deleted
+     [] s.pc = "moveDirSet" ->
+         /\ store' = [store EXCEPT ![o.m] = DirV]
+         /\ Goto(t, "afterMoveDirSet", s)
+         /\ UNCHANGED <<bytes, cnt, res, nblob>>
+     [] s.pc = "afterMoveDirSet" -> Goto(t, "delete", s) /\ UNCHANGED <<store, bytes, cnt, res, nblob>>
      [] s.pc = "move" ->            \* whatever was at the new name stops being referred to by it, in this transaction
          /\ store' = [store EXCEPT ![o.m] = s.src, ![o.n] = None]
          /\ cnt' = [cnt EXCEPT ![o.m] = @ + 1, ![o.n] = @ + 1]
@@ -164,7 +194,7 @@ Step(t) ==
          /\ UNCHANGED <<bytes, res, nblob>>
      [] s.pc = "afterMove" -> Finish(t, "ok") /\ UNCHANGED <<store, bytes, cnt, nblob>>
 
-Final == [n \in Names |-> IF store[n] = None THEN "none" ELSE bytes[store[n]]]
+Final == [n \in Names |-> IF store[n] = None THEN "none" ELSE IF store[n] = DirV THEN "dir" ELSE bytes[store[n]]]
 AllDone == \A t \in Threads : Done(t)
 
 Next ==
@@ -184,7 +214,7 @@ WriteBackSafe ==
      LET n == CurOp(t).n IN (store[n] # None /\ cnt[n] = th[t].u) => store[n] = th[t].blob
 \* a file that a Rename put under a name is lost only to a later Remove, Rename or the recorded check-then-create of
 \* O_CREATE - never to a write-back (stated on the final state: the bytes under a name are those of one whole file)
-TypeOK == /\ \A n \in Names : store[n] = None \/ store[n] \in DOMAIN bytes
+TypeOK == /\ \A n \in Names : store[n] \in {None, DirV} \/ store[n] \in DOMAIN bytes
           /\ \A t \in Threads : Len(res[t]) <= Len(OpsOf(t))
 ModelProps == TypeOK /\ WriteBackSafe
 =============================================================================
